@@ -71,6 +71,7 @@ func init() {
 			h("cont.H_Hist", hist(0, 2, 3, 1, 2), hist(0, 2, 4, 2, 2), histCov, 30, histDesc),
 			h("cont.H_Hist", hist(2, 2, 3, 0, 1), hist(2, 2, 4, 1, 2), histCov, 0, histDesc),
 			h("cont.H_Hist", hist(1, 2, 2, 0, 2), hist(1, 3, 3, 1, 2), histCov, 0, histDesc),
+			h("cont.H_Instances", map[string]int{"order_schemes": 2}, map[string]int{"order_schemes": 4}, []string{"replaced", "resolved"}, 20, "2..3 values of ONE Go type registered as instances under symbolic identities (unkeyed, distinct names, members of one group), optionally one removed and replaced by a new value before Build; every identity resolved twice from the provider, a scope and a nested scope and injected into a scoped consumer (keyed fields and a group field): always exactly the value registered for it, group members in registration order, a removed value never again"),
 		}},
 		propertySpec{ID: "C02", Harnesses: []harnessSpec{
 			h("cont.H_Hist", noAs2(hist(0, 2, 3, 1, 1)), noAs2(hist(0, 2, 4, 2, 2)), histCov, 30, histDesc),
